@@ -529,3 +529,30 @@ PROPS["C19"] = dict(
           "compiled and run through the default path returns the right result."),
     assumptions=["AMD extended leaves (0x80000001) are presented as zero"],
 )
+
+
+PROPS["C09"] = dict(
+    variant="plain",
+    sources=ENGINE + ["props/c09_codemem.c"],
+    level="exploration",
+    technique="model-based testing of the code-memory allocator: exhaustive alloc/free sequences to a depth plus generated real compile/take/free/run histories, invariants read through a walker hook after every step",
+    level_text=("all allocate/free sequences of depth 6 (quick) or 8 (thorough) over six sizes are enumerated and the allocator's regions "
+                "and chunks are checked against an interval model after every step; generated histories of real compiles for avx/sse/mmx "
+                "(up to 40 live functions, code hand-off, frees in arbitrary order, re-execution) check placement, byte stability and "
+                "results. Exhaustive only for the stated depth and alphabet"),
+    level_note=("trusted base: the read-only walker hook orc_verif_codemem_walk (compiled only with ORC_VERIF_HOOKS) and the invariant "
+                "checker in props/c09_codemem.c; no placement policy (first fit) is assumed; requests larger than a region are outside "
+                "the property"),
+    stages=[
+        dict(name="enum-alloc-sequences", mode="enum", quick=dict(), thorough=dict()),
+        dict(name="rc-real-histories", mode="rc", quick=dict(cases=30000, max_size=600, budget=40), thorough=dict(cases=1000000, max_size=800, budget=600)),
+    ],
+    rule=("(a) enumerated: one case per 3-operation prefix, the child enumerates every completion to the tier's depth (inner_evaluations = "
+          "complete sequences); operations: allocate 1/16/17/1000/30000/65536 bytes, free the k-th live allocation; every sequence ends with "
+          "free-all and a whole-region request. (b) generated: 4..64 operations over 40 slots: compile a random program (1..40 instructions) "
+          "for a random x86 target, take its code, free it, re-run it. Non-trivial: every enumerated batch; histories with more than two "
+          "checked steps. Oracle after every step: chunks tile each region, no adjacent free chunks, live allocations are used chunks of "
+          "sufficient size at consistent write/exec offsets, used chunks == live allocations, code bytes of live functions unchanged, "
+          "re-execution equals emulation, freed memory is reused (no new region for a whole-region request after free-all)."),
+    assumptions=["ORC_CODE=debug (which disables freeing) is not set"],
+)
